@@ -167,7 +167,7 @@ def run(tw, tier, seed, only=None):
             fam[u][v]["order"] = 1
         cases += 1
         nontriv += check_graph(tw, fam, rng, fails, {"kind": "symmetric-family"})
-    return {"cases": cases, "nontrivial": nontriv, "failures": fails[:30], "samples": [gen.graph_desc(graphs[0])], "exhaustive": False,
+    return {"cases": cases, "nontrivial": nontriv, "failures": fails, "samples": [gen.graph_desc(graphs[0])], "exhaustive": False,
             "evaluations": tw.evaluations,
             "bound": "%d labelled graphs <= %d atoms (2 elements, 2 orders; sampled) + cycles C4/C5, K2,2, P4, star; matches of each graph into two disjoint copies of itself" % (
                 cases, 3 if tier == "quick" else 4),
